@@ -64,12 +64,17 @@ def run(ctx):
     # ---- G -------------------------------------------------------------------------------
     r = tlc.run("MC_ParamTables", "Gen_ParamTables_t.cfg" if ctx.thorough() else "Gen_ParamTables.cfg",
                 workers=1, timeout=3000)
-    ctx.add_tlc(r, "witness generator")
+    ctx.add_tlc(r, "state-witness generator")
     if not r.ok:
         raise tlc.TLCError("generator failed:\n" + r.stdout[-3000:])
+    r2 = tlc.run("MC_ParamTables", "Gen_ParamTables_edges_t.cfg" if ctx.thorough() else "Gen_ParamTables_edges.cfg",
+                 workers=1, timeout=3000)
+    ctx.add_tlc(r2, "all line sequences up to 3 lines (no state merging: drives hidden implementation state)")
+    if not r2.ok:
+        raise tlc.TLCError("generator failed:\n" + r2.stdout[-3000:])
     keys = ["A", "B", "C"]
     bad = {}
-    for idx, c in enumerate(r.printed):
+    for idx, c in enumerate(r.printed + r2.printed):
         scalar = SCALARS[idx % 4]
         p = Parameters()
         texts = [line_text(ln, scalar) for ln in c["h"]]
@@ -113,7 +118,7 @@ def run(ctx):
                 problems.append(("square-link", f"{s}"))
         for kind, msg in problems:
             bad.setdefault(f"parse:{kind}", (texts, msg))
-    ctx.traces += len(r.printed)
+    ctx.traces += len(r.printed) + len(r2.printed)
     for k, (texts, msg) in sorted(bad.items()):
         ctx.violation(k, f"after lines {texts}: {msg}", {"lines": texts})
 
